@@ -10,7 +10,7 @@ import numpy as np
 
 from ..case import Case
 from .. import spec
-from .common import (gt, fields, invariant_claims, declare_factor, make_factor, factor_spec_params, make_cond)
+from .common import (gt, fields, invariant_claims, declare_factor, make_factor, factor_spec_params, make_cond, spec_eval_ln)
 from .condprops import cond_decl, prior_decl
 from .c02 import _inv_of, _lndet_of
 
@@ -219,6 +219,204 @@ def trans_case(tr, kind, Dx, Dy, Rc, Rx, semi=(), timeout=600):
     return Case(cid, PROP, cfg, declare, fn, claims, timeout=timeout)
 
 
+# ------------------------------------------------------------------------------------------ histories
+HIST_FACTORS = ["conjugate", "onerank", "linear", "constant", "measure", "pdf"]
+HIST_QUERIES = ["integrate_x", "log_integral", "log_integral_light", "evaluate_ln", "get_density", "integrate_xx", "integral_light"]
+
+
+def gen_history(rng, length, D=2):
+    """a seeded random sequence of public operations (each op: tuple); R is tracked so that every op is legal"""
+    R = rng.choice([1, 2])
+    R0 = R
+    seq = []
+    nf = 0
+    while len(seq) < length:
+        kind = rng.choice(["mul", "mul", "had", "had", "query", "query", "slice", "normalize", "density", "product", "mulR"])
+        if kind == "mul":
+            seq.append(("mul", rng.choice(HIST_FACTORS), rng.random() < 0.5, 1, nf)); nf += 1
+        elif kind == "mulR":
+            if R != 1:
+                continue
+            seq.append(("mul", rng.choice(HIST_FACTORS), rng.random() < 0.5, 2, nf)); nf += 1
+            R = 2
+        elif kind == "had":
+            seq.append(("had", rng.choice(HIST_FACTORS), rng.random() < 0.5, rng.choice([1, R]), nf)); nf += 1
+        elif kind == "query":
+            seq.append(("query", rng.choice(HIST_QUERIES)))
+        elif kind == "slice":
+            idx = [rng.randrange(-R, R) for _ in range(rng.choice([1, 2]))]
+            seq.append(("slice", tuple(idx)))
+            R = len(idx)
+        elif kind == "normalize":
+            seq.append(("normalize",))
+        elif kind == "density":
+            seq.append(("density",))
+        elif kind == "product":
+            if R == 1:
+                continue
+            seq.append(("product",)); R = 1
+    return R0, seq
+
+
+def _seq_name(seq):
+    out = []
+    for op in seq:
+        if op[0] in ("mul", "had"):
+            out.append(f"{op[0]}-{op[1][:4]}{'F' if op[2] else 'L'}{op[3]}")
+        elif op[0] == "query":
+            out.append("q-" + op[1].replace("integrate_", "i").replace("log_integral", "li").replace("evaluate_ln", "ev").replace("get_density", "gd").replace("integral_light", "il"))
+        elif op[0] == "slice":
+            out.append("sl" + "".join(str(i) for i in op[1]).replace("-", "m"))
+        else:
+            out.append(op[0][:4])
+    return ".".join(out)
+
+
+def history_case(R0, seq, D=2, tag="", timeout=900, semi_after=99):
+    """a HISTORY: the sequence is executed on the real objects twice -- with and without the read-only queries -- and
+    (i) the cache invariant is asserted on the object after EVERY step, (ii) the final object evaluates to the function
+    obtained by tracking the definition (natural parameters add; normalising subtracts the log-mass), (iii) its
+    log-integral is the Gaussian mass of that function, (iv) the two executions agree."""
+    cid = f"C04/history/{tag}R{R0}/{_seq_name(seq)}"
+    cfg = dict(op="history", D=D, R0=R0, sequence=[list(map(str, o)) for o in seq], length=len(seq))
+
+    def declare(b):
+        _declare_measure(b, D, R0)
+        for op in seq:
+            if op[0] in ("mul", "had"):
+                _, fk, uf, Rf, k = op
+                if k >= semi_after:
+                    _declare_const_factor(b, fk, f"f{k}_", Rf, D)
+                else:
+                    declare_factor(b, fk, f"f{k}_", Rf, D)
+        b.free("x", (1, D))
+
+    def run(A, with_queries):
+        import jax.numpy as jnp
+        u = _measure(A, "cold", D, R0)
+        snaps = []
+        for op in seq:
+            if op[0] in ("mul", "had"):
+                _, fk, uf, Rf, k = op
+                f = make_factor(fk, f"f{k}_", A, D)
+                u = u.multiply(f, update_full=uf) if op[0] == "mul" else u.hadamard(f, update_full=uf)
+            elif op[0] == "query":
+                if not with_queries:
+                    continue
+                q = op[1]
+                if q == "integrate_x": u.integrate("x")
+                elif q == "integrate_xx": u.integrate("xx'")
+                elif q == "log_integral": u.log_integral()
+                elif q == "log_integral_light": u.log_integral_light()
+                elif q == "integral_light": u.integral_light()
+                elif q == "evaluate_ln": u.evaluate_ln(A["x"])
+                elif q == "get_density": u.get_density()
+            elif op[0] == "slice":
+                u = u.slice(jnp.array(list(op[1])))
+            elif op[0] == "normalize":
+                u.normalize()
+            elif op[0] == "density":
+                u = u.get_density()
+            elif op[0] == "product":
+                u = u.product()
+            snaps.append(fields(u))
+        return {"snaps": snaps, "eval": u.evaluate_ln(A["x"]), "logint": u.log_integral(), "Ex": u.integrate("x"), "final": fields(u)}
+
+    def fn(**A):
+        return {"q": run(A, True), "nq": run(A, False)}
+
+    def claims(I, O, ops):
+        cl = []
+        # spec tracking
+        L, nu, lb = I["u_Lam"], I["u_nu"], I["u_lb"]
+        R = R0
+        for op in seq:
+            if op[0] in ("mul", "had"):
+                _, fk, uf, Rf, k = op
+                Lf, nuf, lbf = factor_spec_params(ops, fk, f"f{k}_", I, Rf, D)
+                if op[0] == "mul":
+                    Ln = ops.zeros((R * Rf, D, D)); nn = ops.zeros((R * Rf, D)); ln_ = ops.zeros((R * Rf,))
+                    for i in range(R):
+                        for j in range(Rf):
+                            Ln[i * Rf + j] = L[i] + Lf[j]; nn[i * Rf + j] = nu[i] + nuf[j]; ln_[i * Rf + j] = lb[i] + lbf[j]
+                    R = R * Rf
+                else:
+                    Rn = max(R, Rf)
+                    Ln = ops.zeros((Rn, D, D)); nn = ops.zeros((Rn, D)); ln_ = ops.zeros((Rn,))
+                    for i in range(Rn):
+                        a, c = (i if R > 1 else 0), (i if Rf > 1 else 0)
+                        Ln[i] = L[a] + Lf[c]; nn[i] = nu[a] + nuf[c]; ln_[i] = lb[a] + lbf[c]
+                    R = Rn
+                L, nu, lb = Ln, nn, ln_
+            elif op[0] == "slice":
+                idx = [i % R for i in op[1]]
+                L, nu, lb = L[idx], nu[idx], lb[idx]
+                R = len(idx)
+            elif op[0] in ("normalize", "density"):
+                lb2 = ops.zeros((R,))
+                for r in range(R):
+                    lb2[r] = lb[r] - spec.ln_mass(ops, L[r], nu[r], lb[r])
+                lb = lb2
+            elif op[0] == "product":
+                L = np.sum(L, axis=0)[None]; nu = np.sum(nu, axis=0)[None]
+                s0 = ops.zero()
+                for r in range(R):
+                    s0 = s0 + lb[r]
+                lb = np.array([s0], dtype=object)
+                R = 1
+        x = I["x"]
+        want = spec_eval_ln(ops, (L, nu, lb), x)
+        mass = ops.zeros((R,))
+        for r in range(R):
+            mass[r] = spec.ln_mass(ops, L[r], nu[r], lb[r])
+        for tagq in ("q", "nq"):
+            nm = "with queries" if tagq == "q" else "without queries"
+            for k, F in enumerate(O[tagq]["snaps"]):
+                cl += invariant_claims(ops, F, f"history ({nm}) after step {k + 1}")
+            cl += invariant_claims(ops, O[tagq]["final"], f"history ({nm}) final object after integrals")
+            cl.append((f"history ({nm}): final evaluate_ln = tracked definition", O[tagq]["eval"], want))
+            cl.append((f"history ({nm}): final log_integral = Gaussian mass of the tracked definition", O[tagq]["logint"], mass))
+        for key in ("eval", "logint", "Ex"):
+            cl.append((f"history: {key} does not depend on the read-only queries made on the way", O["q"][key], O["nq"][key]))
+        return cl
+
+    return Case(cid, PROP, cfg, declare, fn, claims, timeout=timeout)
+
+
+def _declare_const_factor(b, kind, pre, R, D):
+    """semi-symbolic factor (generic rationals) for long histories"""
+    if kind in ("conjugate", "measure"):
+        b.const(pre + "L", b.rat_spd(R, D)); b.const(pre + "nu", b.rat_array((R, D))); b.const(pre + "lb", b.rat_array((R,)))
+    elif kind == "onerank":
+        b.const(pre + "v", b.rat_array((R, D), nonzero=True)); b.const(pre + "g", np.array([b.rng.choice([Fraction(1, 2), Fraction(1), Fraction(3, 2)]) for _ in range(R)], dtype=object))
+        b.const(pre + "nu", b.rat_array((R, D))); b.const(pre + "lb", b.rat_array((R,)))
+    elif kind == "linear":
+        b.const(pre + "nu", b.rat_array((R, D))); b.const(pre + "lb", b.rat_array((R,)))
+    elif kind == "constant":
+        b.const(pre + "lb", b.rat_array((R,)))
+    elif kind == "pdf":
+        b.const(pre + "S", b.rat_spd(R, D)); b.const(pre + "mu", b.rat_array((R, D)))
+    else:
+        raise ValueError(kind)
+
+
+def history_cases(tier, seed):
+    import random
+    out = []
+    rng = random.Random(1000 + seed)
+    n, lens = (24, (3, 4, 5)) if tier == "quick" else (120, (3, 4, 5, 6, 7, 8))
+    seen = set()
+    while len(out) < n:
+        ln = rng.choice(lens)
+        R0, seq = gen_history(rng, ln)
+        nm = (R0, _seq_name(seq))
+        if nm in seen or not any(o[0] in ("mul", "had") for o in seq):
+            continue
+        seen.add(nm)
+        out.append(history_case(R0, seq, semi_after=2 if ln <= 5 else 1, timeout=900 if tier == "quick" else 1800))
+    return out
+
+
 def cases(tier, seed=0):
     out = []
     fk = ["conjugate", "onerank", "linear", "constant", "measure", "pdf"]
@@ -268,6 +466,7 @@ def cases(tier, seed=0):
                     out.append(trans_case(tr, kind, 2, 2, Rc, Rx, semi=("Sx", "Sy"), timeout=1800))
                     out.append(trans_case(tr, kind, 2, 2, Rc, Rx, semi=("M", "Sx"), timeout=1800))
     # heteroscedastic conditionals conditioned on x (A square, and A wide: see known findings)
+    out += history_cases(tier, seed)
     from .c17 import coherence_case
     for link, signs in (("exp", None), ("cosh", None), ("step", [1]), ("relu", [1])):
         for (Dx, Dy, Da, Dk) in ((1, 1, 1, 1), (2, 2, 2, 1), (1, 1, 2, 1)):
